@@ -530,6 +530,15 @@ reg(Prop("C15", "Transposition table returns only what was stored for that key",
                          "signature 0), depths/plies 0..63, all bound types, generations incl. 254->255->0, scores around "
                          "+-(Inf+-64), +-Inv and ordinary; 6% malformed (out-of-range depth/ply/type/score, invalid sizes); "
                          "every mutating op is followed by a probe of all pool keys; non-trivial = at least 3 stores"),
+          StreamCfg("c15multi", 2500, 80000, judge="judge_c15multi",
+                    rule="1..4 table slots: tables created by New at the start, at random times, or after one table outgrew "
+                         "its buffer (New(s); Resize(bigger); New(<=s); New(s)), 1..48 buckets, operations interleaved across the "
+                         "live tables over one pool of colliding keys; 20% of the steps are groups of 2..4 LookUp calls whose "
+                         "results (pointers) are kept and whose accessors are read only afterwards, first to last or last to "
+                         "first (hits and misses, same and other buckets, same and other tables); the model runs independent "
+                         "tables and answers a held probe with the table's content at the call; the judge projects the run on "
+                         "every slot and judges each against its own abstract map; non-trivial = at least 3 stores and two live "
+                         "tables or a held group"),
           StreamCfg("c15big", 9, 90, judge="judge_c15big", model=False,
                     rule="judge only: big tables (8, 16, 24 MB and odd bucket counts around them: primes, 2^k+-1, +-7) with "
                          "GOMAXPROCS part of the input (host value, 2..64); one key aimed (checked through VerifBucketIx) at each of "
